@@ -553,8 +553,11 @@ def regex_round(chk, drv, cases, mechanism):
             old_c, new_c = re.compile(p), re.compile(impl)
         except re.error:
             continue
+        # (the repaired converter keeps the length keywords next to a pattern that is not anchored at both ends)
+        kept = chk.variants.get("length_drop") == "repaired" and not both_anchored(p)
         for t in rx_strings():
-            if new_c.search(t) and not (old_c.search(t) and (lo or 0) <= len(t) and (hi is None or len(t) <= hi)):
+            len_ok = (lo or 0) <= len(t) and (hi is None or len(t) <= hi)
+            if new_c.search(t) and (len_ok or not kept) and not (old_c.search(t) and len_ok):
                 chk.violation(pattern_signature(p, lo, hi),
                               "the rewritten pattern, which replaces pattern + minLength/maxLength, matches a string that the "
                               "original constraints reject", {"pattern": p, "minLength": lo, "maxLength": hi,
